@@ -191,7 +191,7 @@ func runC15(c *Ctx) {
 		for _, r := range Returns(dn) {
 			if ok, _ := MustPassEdges(dn, r, ptrLike); ok && len(ptrLike) > 0 {
 				n++
-				isT, why := isTop(r.Results[0], top)
+				isT, why := isTop(ReturnOperand(r, 0), top)
 				c.Check(FuncKey(dn)+"::pointer-like-default-is-top", r.Pos(), isT, "the default for a pointer-like result nothing is known about must be the absorbing element in both components (%s)", why)
 			}
 		}
@@ -226,7 +226,7 @@ func runC15(c *Ctx) {
 		})
 		// the same written with locals: inner, outer := v.Inner, v.Outer; if inner == 0 { inner = top } …; return ValueNilness{inner, outer}
 		for _, r := range Returns(nm) {
-			u, ok := r.Results[0].(*ssa.UnOp)
+			u, ok := ReturnOperand(r, 0).(*ssa.UnOp)
 			if !ok {
 				continue
 			}
@@ -289,7 +289,7 @@ func runC15(c *Ctx) {
 		for _, r := range Returns(rn) {
 			if ok, _ := MustPassEdges(rn, r, noFact); ok && len(noFact) > 0 {
 				n++
-				isT, why := isTop(r.Results[0], top)
+				isT, why := isTop(ReturnOperand(r, 0), top)
 				c.Check(FuncKey(rn)+"::no-fact-is-top", r.Pos(), isT, "a function without an exported fact was not analysed: its pointer-like results may be anything (%s)", why)
 			}
 		}
@@ -299,7 +299,7 @@ func runC15(c *Ctx) {
 		// the fact that is used is normalised
 		normUsed := false
 		for _, r := range Returns(rn) {
-			if call, ok := r.Results[0].(*ssa.Call); ok && IsCallTo(call, nilnessPkg+".normalize") {
+			if call, ok := ReturnOperand(r, 0).(*ssa.Call); ok && IsCallTo(call, nilnessPkg+".normalize") {
 				normUsed = true
 			}
 		}
@@ -381,7 +381,7 @@ func runC15(c *Ctx) {
 					if !ok {
 						return false
 					}
-					isT, w := isTop(r.Results[0], top)
+					isT, w := isTop(ReturnOperand(r, 0), top)
 					if !isT {
 						bad, why = r, w
 					}
@@ -391,11 +391,11 @@ func runC15(c *Ctx) {
 					if !ok {
 						return false
 					}
-					isT, _ := isTop(r.Results[0], top)
+					isT, _ := isTop(ReturnOperand(r, 0), top)
 					return isT
 				}, nil)
 				if r0, ok := succ.Instrs[0].(*ssa.Return); ok && isRet(r0) {
-					if isT, w := isTop(r0.Results[0], top); !isT {
+					if isT, w := isTop(ReturnOperand(r0, 0), top); !isT {
 						t, bad, why = r0, r0, w
 					} else {
 						t = nil
@@ -426,7 +426,7 @@ func runC15(c *Ctx) {
 			c.Undecided("impl no longer runs dense.Forward")
 		}
 		for i, r := range Returns(impl) {
-			v := r.Results[0]
+			v := ReturnOperand(r, 0)
 			switch {
 			case IsNilConst(v):
 				c.CheckTrivial(FuncKey(impl)+"::return#"+itoa(i)+"::nil-for-no-results", r.Pos(), true, "functions without results have no facts")
